@@ -118,6 +118,35 @@ def check(out, ctx):
                               {"grammar": text, "result": r, "dest_head": body[:300]})
             if len(samples) < 3:
                 samples.append({"grammar": text.split("\n")[0][:120], "code_bytes": len(code), "routes_equal": True})
+        # the build-script route with settings: derives and user context type, in both orders of the
+        # builder calls, against the library call with the same settings
+        hooks_text = None
+        for (i, gg, text) in gs:
+            if gg is not None and ("@check" in text or "@extern" in text) and "hooks::ctx::" not in text:
+                hooks_text = text
+                break
+        bs_settings = 0
+        for bi, text in enumerate([t for t in [hooks_text, gs[0][2], "@export R = 'x' y:Y;\nY = 'y';\n"] if t]):
+            gp = os.path.join(tmp, "bs%d.ebnf" % bi)
+            open(gp, "w", encoding="utf-8", newline="").write(text)
+            for ds in (["Debug", "Clone"], ["Debug", "Clone", "PartialEq"]):
+                lib = subprocess.run([front, "gen", gp, "ctx=crate::hooks::Ctx", "derives=" + ",".join(ds)], stdout=subprocess.PIPE, text=True).stdout
+                if not lib.startswith("CODE\n"):
+                    continue
+                for order in ("d=%s;u=crate::hooks::Ctx" % ",".join(ds), "u=crate::hooks::Ctx;d=%s" % ",".join(ds)):
+                    dest = os.path.join(tmp, "bs%d.rs" % bi)
+                    if os.path.exists(dest):
+                        os.remove(dest)
+                    r = vp.pipe_lines(ctx.direct, ["compile\tfile\t%s\t%s\t0\t\t%s" % (gp, dest, order)])[0]
+                    body = open(dest, encoding="utf-8").read() if os.path.exists(dest) else ""
+                    evaluations += 1
+                    bs_settings += 1
+                    if r != "OK" or strip_header(body) != lib[5:].strip():
+                        out.violation("c16:buildscript-settings:%d:%s" % (bi, order),
+                                      "Compile with the builder calls %s differs from the library call with the same settings" % order.replace(";", " then "),
+                                      {"grammar": text, "builder_calls": order, "result": r,
+                                       "impl_lines": sorted(set(l.strip() for l in body.split("\n") if "PegParserAdvanced" in l))[:3],
+                                       "library_impl_lines": sorted(set(l.strip() for l in lib.split("\n") if "PegParserAdvanced" in l))[:3]})
         # macro route: behaviour and types through peginate!
         mg = []
         k = 0
@@ -168,7 +197,7 @@ def check(out, ctx):
         out.coverage.update({
             "evaluations": evaluations, "distinct_nontrivial": len(distinct),
             "rule": "generated grammars and repository grammars; each compiled by the library call in 5 fresh processes (different environment), by the peginator-cli binary, by Compile::run, and (a few) through peginate!; distinct = distinct generated code texts",
-            "samples": samples, "macro_route_results_compared": compared, "cli_derive_lists_compared": len(cli_opts),
+            "samples": samples, "macro_route_results_compared": compared, "cli_derive_lists_compared": len(cli_opts), "buildscript_settings_compared": bs_settings,
         })
     finally:
         shutil.rmtree(tmp, ignore_errors=True)
